@@ -166,13 +166,13 @@ def voidOk (cfg : HtmlCfg) : HSt → List Ev → Bool
 
 theorem HInv_none (st : HSt) : HInv st none := by intro h; cases h
 
-theorem step_hNoAdj (cfg : HtmlCfg) (hraw : cfg.rawSetsPrevText = true) (st : HSt) (e : Ev) (p : Option Bool)
+theorem stepCore_hNoAdj (cfg : HtmlCfg) (hraw : cfg.rawSetsPrevText = true) (st : HSt) (e : Ev) (p : Option Bool)
     (h : HInv st p) (hp : p ≠ some false) (hok : okAt st e = true) :
-    hNoAdjFrom p (step cfg st e).2 = true ∧ HInv (step cfg st e).1 (hLastFrom p (step cfg st e).2) ∧
-    hLastFrom p (step cfg st e).2 ≠ some false := by
+    hNoAdjFrom p (stepCore cfg st e).2 = true ∧ HInv (stepCore cfg st e).1 (hLastFrom p (stepCore cfg st e).2) ∧
+    hLastFrom p (stepCore cfg st e).2 ≠ some false := by
   cases e with
   | startElement n a =>
-    simp only [step, startElement]
+    simp only [stepCore, startElement]
     have key : ∀ b : Bool, HInv { st with hasNamespaceStack := b :: st.hasNamespaceStack } p := fun _ => h
     cases hasNamespace cfg n
     · obtain ⟨a1, a2⟩ := htmlStart_hNoAdj cfg _ n a p (key false)
@@ -181,7 +181,7 @@ theorem step_hNoAdj (cfg : HtmlCfg) (hraw : cfg.rawSetsPrevText = true) (st : HS
     · simp only [if_true]
       exact (xml_hNoAdj cfg _ n a p (key true) hp).1
   | endElement n =>
-    simp only [step, endElement]
+    simp only [stepCore, endElement]
     have h' : HInv { st with hasNamespaceStack := st.hasNamespaceStack.tail } p := h
     cases hns : st.hasNamespaceStack.headD false
     · simp only [Bool.false_eq_true, if_false]
@@ -193,11 +193,50 @@ theorem step_hNoAdj (cfg : HtmlCfg) (hraw : cfg.rawSetsPrevText = true) (st : HS
       exact ⟨a1, by rw [a2]; exact HInv_none _, by rw [a2]; simp⟩
     · simp only [if_true]
       exact (xml_hNoAdj cfg _ n [] p h' hp).2
-  | characters t => exact step_hNoAdj_simple cfg hraw st _ p trivial h hp
-  | cdata t => exact step_hNoAdj_simple cfg hraw st _ p trivial h hp
-  | raw t => exact step_hNoAdj_simple cfg hraw st _ p trivial h hp
-  | comment t => exact step_hNoAdj_simple cfg hraw st _ p trivial h hp
-  | pi t d => exact step_hNoAdj_simple cfg hraw st _ p trivial h hp
+  | characters t => exact stepCore_hNoAdj_simple cfg hraw st _ p trivial h hp
+  | cdata t => exact stepCore_hNoAdj_simple cfg hraw st _ p trivial h hp
+  | raw t => exact stepCore_hNoAdj_simple cfg hraw st _ p trivial h hp
+  | comment t => exact stepCore_hNoAdj_simple cfg hraw st _ p trivial h hp
+  | pi t d => exact stepCore_hNoAdj_simple cfg hraw st _ p trivial h hp
+
+theorem HInv_prevtext (st : HSt) (p : Option Bool) (h : HInv st p) : HInv { st with isprevtext := true } p := by
+  intro hp
+  obtain ⟨h1, _, h3⟩ := h hp
+  exact ⟨h1, rfl, h3⟩
+
+/-- the `m_nextIsRaw` level on top: a marker writes nothing, a flagged text event is `charactersRaw` -/
+theorem step_hNoAdj (cfg : HtmlCfg) (hraw : cfg.rawSetsPrevText = true) (st : HSt) (e : Ev) (p : Option Bool)
+    (h : HInv st p) (hp : p ≠ some false) (hok : okAt st e = true) :
+    hNoAdjFrom p (step cfg st e).2 = true ∧ HInv (step cfg st e).1 (hLastFrom p (step cfg st e).2) ∧
+    hLastFrom p (step cfg st e).2 ≠ some false := by
+  have rawcase : ∀ t : Str,
+      hNoAdjFrom p (stepCore cfg { st with nextIsRaw := false } (.raw t)).2 = true ∧
+      HInv { (stepCore cfg { st with nextIsRaw := false } (.raw t)).1 with isprevtext := true }
+        (hLastFrom p (stepCore cfg { st with nextIsRaw := false } (.raw t)).2) ∧
+      hLastFrom p (stepCore cfg { st with nextIsRaw := false } (.raw t)).2 ≠ some false := by
+    intro t
+    obtain ⟨a1, a2, a3⟩ := stepCore_hNoAdj cfg hraw { st with nextIsRaw := false } (.raw t) p h hp rfl
+    exact ⟨a1, HInv_prevtext _ _ a2, a3⟩
+  cases e with
+  | pi t d =>
+    simp only [step]
+    split
+    · exact ⟨rfl, h, hp⟩
+    · exact stepCore_hNoAdj cfg hraw st _ p h hp hok
+  | characters t =>
+    simp only [step]
+    split
+    · exact rawcase t
+    · exact stepCore_hNoAdj cfg hraw st _ p h hp hok
+  | cdata t =>
+    simp only [step]
+    split
+    · exact rawcase t
+    · exact stepCore_hNoAdj cfg hraw st _ p h hp hok
+  | startElement n a => exact stepCore_hNoAdj cfg hraw st _ p h hp hok
+  | endElement n => exact stepCore_hNoAdj cfg hraw st _ p h hp hok
+  | raw t => exact stepCore_hNoAdj cfg hraw st _ p h hp hok
+  | comment t => exact stepCore_hNoAdj cfg hraw st _ p h hp hok
 
 theorem runFrom_hNoAdj (cfg : HtmlCfg) (hraw : cfg.rawSetsPrevText = true) (evs : List Ev) (st : HSt) (p : Option Bool)
     (h : HInv st p) (hp : p ≠ some false) (hok : voidOk cfg st evs = true) :
